@@ -276,6 +276,7 @@ def pick_samples(results):
 
 def verdict(run, prop, broken, findings):
     known = vlib.known_findings(prop)
+    findings = sorted(findings, key=lambda f: len(expand_ops(f["case"]["ops"])) if f.get("case") and f["case"].get("ops") else 0)
     reported = set()
     nviol = 0
     for f in findings:
